@@ -137,3 +137,83 @@ func c02ReencodeLimits(r *run.Run) {
 			c02Check(c, seeds[cs.gpos], c02GtabWrap(cs.typ, b), what)
 		})
 }
+
+// c02ReencodeGdef: GDEF files whose class definition tables are large, shared between the two class
+// offsets, or laid out with the large table last: gdef.Read refuses or returns a value Encode can write.
+func c02ReencodeGdef(r *run.Run) {
+	classDef := func(n int) []byte { // format 1 from glyph 1: n alternating classes (6 + 2n bytes)
+		out := be16(1, 1, n)
+		for i := 0; i < n; i++ {
+			out = append(out, be16(1+2*(i%2))...)
+		}
+		return out
+	}
+	counts := []int{1, 1000, 16370, 16380, 16390}
+	for n := 32744; n <= 32770; n++ {
+		counts = append(counts, n)
+	}
+	counts = append(counts, 40000, 65535)
+	seed := c02TableSeed("gdef.Read", "re-encode limits", nil)
+	r.Explore(explore.Config{Name: "C02.reencode-gdef", Deadline: r.PartDeadline(0.2)},
+		"GDEF tables (versions 1.0 and 1.2) with a class definition table of n alternating classes, n in {1, 1000, about 16380, every value 32744..32770, 40000, 65535}, used as glyph class table, as mark attachment class table, as both (one shared table), or as both in two copies; the small tables in front of the large one; with and without mark glyph sets: gdef.Read returns an error or a value whose Encode does not panic",
+		func(c *explore.Ctx) {
+			n := counts[c.Choose(len(counts), "entries of the large class table")]
+			layout := c.Choose(5, "layout")
+			sets := c.Bool("mark glyph sets")
+			hdr := 12
+			if sets {
+				hdr = 14
+			}
+			small := classDef(2)
+			var setTab []byte
+			if sets {
+				setTab = append(be16(1, 1), be32(8)...)
+				setTab = append(setTab, be16(1, 1, 2)...)
+			}
+			big := classDef(n)
+			var gOff, aOff, sOff int
+			body := []byte{}
+			place := func(b []byte) int {
+				off := hdr + len(body)
+				body = append(body, b...)
+				return off
+			}
+			if sets {
+				sOff = place(setTab)
+			}
+			switch layout {
+			case 0: // small mark attachment classes, large glyph classes last
+				aOff = place(small)
+				gOff = place(big)
+			case 1: // small glyph classes, large mark attachment classes last
+				gOff = place(small)
+				aOff = place(big)
+			case 2: // one shared large table
+				gOff = place(big)
+				aOff = gOff
+			case 3: // two copies of half the size
+				half := classDef(n / 2)
+				gOff = place(half)
+				aOff = place(half)
+			default: // only glyph classes
+				gOff = place(big)
+			}
+			if gOff > 0xFFFF || aOff > 0xFFFF {
+				c.Skip("the file format cannot express this layout")
+			}
+			minor := 0
+			if sets {
+				minor = 2
+			}
+			b := be16(1, minor, gOff, 0, 0, aOff)
+			if sets {
+				b = append(b, be16(sOff)...)
+			}
+			b = append(b, body...)
+			what := func() string {
+				return fmt.Sprintf("GDEF 1.%d, class table of %d entries, layout %d", minor, n, layout)
+			}
+			c.Sample(func() any { return what() })
+			c02Check(c, seed, b, what)
+		})
+}
